@@ -93,7 +93,11 @@ namespace zoo {
       sm = { &lex.get_sum(w0), &lex.get_sum(w1), &lex.get_sum(w2) };
       for (std::size_t i = 0; i < pr.size(); ++i) { name(static_cast<const ipr::Node*>(pr[i]), "P" + std::to_string(i)); name(static_cast<const ipr::Node*>(sm[i]), "SM" + std::to_string(i)); }
       xf = { &ipr::impl::cxx_transfer(), &lex.get_transfer_from_linkage(il.c_linkage()),
-             &lex.get_transfer(lex.get_linkage(u8"Java"), lex.get_calling_convention(u8"fastcall")) };
+             &lex.get_transfer(lex.get_linkage(u8"Java"), lex.get_calling_convention(u8"fastcall")),
+             // natural linkage with a non-natural convention; a convention alone; natural convention with a foreign linkage
+             &lex.get_transfer(il.cxx_linkage(), lex.get_calling_convention(u8"vectorcall")),
+             &lex.get_transfer_from_convention(lex.get_calling_convention(u8"stdcall")),
+             &lex.get_transfer(lex.get_linkage(u8"Ada"), lex.get_calling_convention(u8"")) };
       auto& o = owned(*this);
       for (int i = 0; i < 3; ++i) {
          ipr::Source_location loc;
